@@ -186,7 +186,9 @@ def check(prop, tier, seed):
         "tables_digest": common.tables_digest(),
         "programs": ctx.cases,
         "evaluations": max(ctx.cases, 1),
-        "distinct_nontrivial": len(ctx.distinct),
+        "distinct_nontrivial": (lambda nt: len(nt) if nt else len(ctx.distinct))(
+            [k for k in ctx.distinct if isinstance(k, tuple) and k and k[-1] == "nt"]),
+        "distinct_cases": len([k for k in ctx.distinct if not (isinstance(k, tuple) and k and k[-1] == "nt")]),
         "rule": getattr(mod, "RULE", ""),
         "disagreements_checked": len(ctx.disagreements),
         "oracle_failures_new": len(new_failures),
